@@ -45,3 +45,111 @@ def post_adjust(case):
 
 SWEEP = (4, 120)
 install(globals(), ID, 3000, 40000)
+_sim_run = run
+_sim_replay = replay
+
+
+# ----------------------------------------------------------------------------- REAL part (fault points inside the shutdown phase)
+def real_oracle(prog, out):
+    m = [o for o in out if "outcomes" in o]
+    if not m:
+        return [("driver_incomplete", f"{out[-2:]}")]
+    m = m[0]
+    v = []
+    for i, o in enumerate(m["outcomes"]):
+        if o != ["val", ["ok", i]]:
+            v.append(("not_drained", f"task {i} submitted before the shutdown ended with {o}"))
+    if m["broken"] or m["broken_after"]:
+        v.append(("pool_flagged_broken_by_graceful_shutdown", f"{m['broken']} / {m['broken_after']}"))
+    if m["late_submit"] not in (None, "ShutdownExecutorError"):
+        v.append(("submit_after_shutdown", f"{m['late_submit']}"))
+    if m["threads_left"] or m["children_left"]:
+        v.append(("left_behind_after_shutdown", f"40 s after the shutdown: threads {m['threads_left']}, child processes {m['children_left']}"))
+    return v
+
+
+def real_shard(seed, n, tier="quick"):
+    import json
+    import hypothesis
+    from hypothesis import given, settings, HealthCheck, Phase, strategies as st
+    from real import runner
+    from vlib.common import Acc, HarnessError
+
+    acc = Acc()
+    fails = []
+    base = runner.workdir("c05real")
+    phases = [Phase.generate] if tier == "quick" else [Phase.generate, Phase.shrink]
+    task = st.one_of(st.tuples(st.just("echo")), st.tuples(st.just("nap"), st.sampled_from([0.02, 0.3])),
+                     st.tuples(st.just("big"), st.sampled_from([1000, 200000])))
+
+    @hypothesis.seed(seed)
+    @settings(max_examples=n, database=None, deadline=None, suppress_health_check=list(HealthCheck), report_multiple_bugs=False,
+              phases=phases)
+    @given(st.integers(1, 4), st.sampled_from([None, 0.05, 0.3, 20]), st.lists(task, min_size=1, max_size=10),
+           st.sampled_from(["wait", "nowait", "with", "del"]),
+           st.sampled_from(["mgr.shutdown_workers", "mgr.join", "mgr.after_wait", "worker.before_announce", "worker.announced"]),
+           st.integers(1, 3), st.sampled_from([100, 400, 900]))
+    def t(workers, timeout, tasks, form, point, nth, ms):
+        role = "worker" if point.startswith("worker") else "parent"
+        prog = {"workers": workers, "timeout": timeout, "tasks": [list(x) for x in tasks], "form": form,
+                "plan": [{"point": point, "role": role, "nth": nth, "action": f"sleep:{ms}"}]}
+        res, p = runner.run_driver("drv_c05.py", prog, base, timeout=240,
+                                   env_extra={"LOKY_VERIF_PLAN": json.dumps(prog["plan"]), "LOKY_VERIF_DIR": "."}, hooks=True)
+        res = runner.finish(res, p)
+        case = {"engine": "real", "prog": prog}
+        v = real_oracle(prog, res["out"])
+        if v and v[0][0] == "driver_incomplete":
+            if res["timed_out"]:
+                v = [("shutdown_hangs", f"driver did not finish within 240 s; plan {prog['plan']}, form {form}; err={res['err'][-300:]}")]
+            else:
+                raise HarnessError(f"C05 real driver incomplete rc={res['rc']}: {res['err'][-800:]} prog={prog}")
+        if not fails:
+            acc.case(case, len(tasks) >= 2)
+            acc.count("real_shutdown_cases")
+            acc.count("real_form:" + form)
+            acc.count("real_point:" + point)
+        if v:
+            fails.append({"kind": v[0][0], "detail": v[0][1], "case": case, "where": "real"})
+            raise AssertionError(v[0][0])
+
+    try:
+        t()
+    except BaseException:
+        if not fails:
+            raise
+    finally:
+        import shutil
+        shutil.rmtree(base, ignore_errors=True)
+    if fails:
+        acc.violations.append(fails[-1])
+    return acc
+
+
+def run(tier, seed):
+    from vlib import common
+    from vlib.shards import run_jobs
+    acc = _sim_run(tier, seed)
+    nr = 48 if tier == "quick" else 640
+    a2, _ = run_jobs([{"module": "props.c05", "func": "real_shard",
+                       "kwargs": {"seed": common.derive_seed(seed, ID, "real", i), "n": nr // 16, "tier": tier}} for i in range(16)],
+                     tag="c05real", timeout_s=1500 if tier == "quick" else 7200)
+    acc.merge(a2, sample_cap=10)
+    return acc
+
+
+def replay(case, verbose=False):
+    if case.get("engine") == "real":
+        import json
+        import shutil
+        from real import runner
+        base = runner.workdir("c05replay")
+        prog = case["prog"]
+        res, p = runner.run_driver("drv_c05.py", prog, base, timeout=240,
+                                   env_extra={"LOKY_VERIF_PLAN": json.dumps(prog["plan"]), "LOKY_VERIF_DIR": "."}, hooks=True)
+        res = runner.finish(res, p)
+        if verbose:
+            print(res["out"], res["err"][-400:])
+        v = real_oracle(prog, res["out"])
+        shutil.rmtree(base, ignore_errors=True)
+        return [{"kind": k, "detail": d, "case": case, "predicates": []} for k, d in v]
+    return _sim_replay(case, verbose)
